@@ -194,6 +194,56 @@ def run(c):
             c.finding_or_violation({"kind": "rpc", "what": "a call on an environment whose container is gone does not fail promptly", "op": op["op"], "ms": ob.get("ms")},
                                    {"history": dead_ops[:len(dead["obs"])], "observed": dead["obs"]}, klass="dead-env")
             break
+    # ---- the container stalls for longer than a Ping waits and then goes on: whatever the host makes of it, no later call may be
+    # handed an answer that belongs to an earlier one
+    st_ops = [{"op": "newenv"}, {"op": "exec", "args": ["/bin/true"]}, {"op": "stopinit"}, {"op": "ping"}, {"op": "continit"},
+              {"op": "delete", "path": "/w/none"}, {"op": "exec", "args": ["/bin/true"]}, {"op": "ping"}, {"op": "delete", "path": "/w/none"}, {"op": "newenv"}]
+    so_ = c.run_harness(exe, [{"id": 0, "ops": st_ops}], env=env, timeout=300)[0]
+    c.count("stalled-container", nontrivial=True, klass="history:stalled-container")
+    sob = so_["obs"]
+    if so_.get("hang"):
+        c.finding_or_violation({"kind": "rpc", "what": "a call never returns after the container stalled and went on", "class": "stalled"},
+                               {"history": st_ops[:len(sob)], "observed": sob}, klass="stalled")
+    elif not sob[3].get("err"):
+        raise RuntimeError("the Ping of a stopped container succeeded: %r" % sob[3])
+    else:
+        transportish = lambda e: bool(e) and any(w in e for w in TRANSPORT_WORDS + ("timeout", "i/o"))
+        bad = None
+        for k in (5, 8):
+            e = sob[k].get("err")
+            if not e:
+                bad = "Delete of a file that does not exist reports success (it was handed the answer of an earlier call)"
+        x6 = sob[6]
+        if x6["status"] != 1 and not (x6["status"] == 8 and transportish(x6["errmsg"])):
+            bad = "Execve(/bin/true) is answered with something that is neither its result nor a transport failure: status %s %s" % (x6["status"], x6["errmsg"][:60])
+        if bad:
+            c.finding_or_violation({"kind": "rpc", "what": bad, "class": "stalled"}, {"history": st_ops, "observed": sob}, klass="stalled")
+    # ---- the container stalls for seven seconds while a file operation is outstanding (answers may be late, they may not be handed to the wrong call)
+    sl_ops = [{"op": "newenv"}, {"op": "open", "items": [{"path": "/w/c", "flag": 0o102, "perm": 0o600, "write": "c"}]}, {"op": "stallinit", "ms": 7000},
+              {"op": "open", "items": [{"path": "/w/e", "flag": 0o102, "perm": 0o600, "write": "e"}, {"path": "/w/f", "flag": 0o102, "perm": 0o600, "write": "f"}]},
+              {"op": "symlink", "links": [{"link": "/w/l9", "target": "e"}]}, {"op": "sleep", "ms": 3000},
+              {"op": "delete", "path": "/w/none"}, {"op": "open", "items": [{"path": "/w/e", "flag": 0, "perm": 0, "read": True}]},
+              {"op": "exec", "args": ["/bin/true"]}, {"op": "delete", "path": "/w/none"}, {"op": "newenv"}]
+    sl = c.run_harness(exe, [{"id": 0, "ops": sl_ops}], env=env, timeout=300)[0]
+    c.count("stalled-file-operation", nontrivial=True, klass="history:stalled-file-operation")
+    slo = sl["obs"]
+    if sl.get("hang"):
+        c.finding_or_violation({"kind": "rpc", "what": "a call never returns after the container stalled during a file operation", "class": "stalled"},
+                               {"history": sl_ops[:len(slo)], "observed": slo}, klass="stalled")
+    else:
+        bad = None
+        dead_env = any("err" in x and x.get("err") and any(w in str(x["err"]) for w in TRANSPORT_WORDS) for x in slo[3:])
+        for k in (6, 9):
+            if not slo[k].get("err"):
+                bad = "Delete of a file that does not exist reports success (it was handed the answer of an earlier call)"
+        rd = slo[7]
+        if not rd.get("err") and rd.get("results") and "err" not in rd["results"][0] and rd["results"][0].get("content") != "e":
+            bad = "Open returns a descriptor that is not the requested file (the answer of an earlier call)"
+        x8 = slo[8]
+        if x8["status"] != 1 and not (x8["status"] == 8 and any(w in x8["errmsg"] for w in TRANSPORT_WORDS + ("timeout", "i/o"))):
+            bad = "Execve(/bin/true) is answered with something that is neither its result nor a transport failure: status %s %s" % (x8["status"], x8["errmsg"][:60])
+        if bad:
+            c.finding_or_violation({"kind": "rpc", "what": bad, "class": "stalled"}, {"history": sl_ops, "observed": slo}, klass="stalled")
     # ---- the oversize request (known finding): its own environment
     big = c.run_harness(exe, [{"id": 0, "ops": [{"op": "newenv"}, {"op": "exec", "args": ["/bin/true"], "env_bytes": 40000}, {"op": "ping"}, {"op": "newenv"}]}],
                         env=env)[0]["obs"]
